@@ -26,10 +26,11 @@ type SpecEnv struct {
 	calleeMode   bool
 	assigned     []string
 	qn           *int
-	guard        []Term // antecedents in force (assume polarity), for lazily instantiated universals
-	lazyOK       bool   // forallref may be registered as a lazy universal / skolemised
-	nameFallback *State // inside old(): locals that did not exist at entry keep their current value
-	pol          int    // +1: formula will be proved, -1: formula will be assumed, 0: unknown polarity
+	guard        []Term           // antecedents in force (assume polarity), for lazily instantiated universals
+	lazyOK       bool             // forallref may be registered as a lazy universal / skolemised
+	prevNames    map[string]Value // step_ensures: values of the loop variables at the head of the iteration (prev(x))
+	nameFallback *State           // inside old(): locals that did not exist at entry keep their current value
+	pol          int              // +1: formula will be proved, -1: formula will be assumed, 0: unknown polarity
 }
 
 // UntypedInt: integer literal that adapts to its context.
@@ -581,6 +582,24 @@ func (e *SpecEnv) callExpr(n *ast.CallExpr) Value {
 		return n.Args[i]
 	}
 	switch fname {
+	case "prev": // prev(expr): expr with the loop variables bound to their values at the head of this iteration
+		if e.prevNames == nil {
+			e.fail(n, "prev() outside step_ensures")
+		}
+		sub := *e
+		sub.vars = make(map[string]Value, len(e.vars)+len(e.prevNames))
+		for k, v := range e.vars {
+			sub.vars[k] = v
+		}
+		for k, v := range e.prevNames {
+			sub.vars[k] = v
+		}
+		for old, cur := range ex.renames {
+			if v, ok := e.prevNames[cur]; ok {
+				sub.vars[old] = v
+			}
+		}
+		return sub.eval(arg(0))
 	case "old":
 		if e.old == nil {
 			e.fail(n, "old() without an entry state")
